@@ -4,6 +4,8 @@
 package mops
 
 import (
+	"image"
+	"image/color"
 	"io"
 
 	"github.com/EliCDavis/polyform/formats/gltf"
@@ -44,12 +46,30 @@ var Kinds = []string{
 	"scaleattr", "scalealongnormal", "translateattr", "rotateattr", "center", "normalize",
 	"filter1", "filter3", "crop", "split", "repeat", "slice", "vertexcolor",
 	"export-ply", "export-obj", "export-mtl", "export-gltf", "export-stl", "scan",
+	// second catalogue (added after a statement-coverage measurement of the anchored files showed
+	// these public entry points were never entered): the Transformer structs, the 2- and 4-component
+	// variants, line topologies, the remaining primitives, the remaining scans, glTF with materials
+	"fresh-line", "prim2", "copy2", "copy4", "clearattr", "filter2", "filter4", "normalize2", "scale2", "colorgrade",
+	"tf", "tf", "tf", "tf", "scan2", "export-gltf-mat", "modifydefault",
 }
+
+// TfCount is the number of Transformer structs "tf" chooses from (Op.X[0]).
+const TfCount = 25
 
 // Gen draws one operation.
 func Gen(t *rapid.T) Op {
 	k := rapid.SampledFrom(Kinds).Draw(t, "op")
 	op := Op{K: k, A: rapid.IntRange(0, 7).Draw(t, "a"), B: rapid.IntRange(0, 7).Draw(t, "b")}
+	Fill(t, &op)
+	return op
+}
+
+// Fill draws the kind-specific fields of op (used by Gen, and by callers that re-draw the kind).
+func Fill(t *rapid.T, opp *Op) {
+	op := *opp
+	defer func() { *opp = op }()
+	k := op.K
+	op.P, op.X, op.M = nil, nil, nil
 	switch k {
 	case "fresh":
 		var val *rapid.Generator[float64]
@@ -64,6 +84,19 @@ func Gen(t *rapid.T) Op {
 		op.M = &d
 	case "prim":
 		op.X = []int{rapid.IntRange(0, 6).Draw(t, "prim"), rapid.IntRange(2, 5).Draw(t, "r"), rapid.IntRange(3, 6).Draw(t, "c")}
+	case "prim2":
+		op.X = []int{rapid.IntRange(0, 7).Draw(t, "prim2"), rapid.IntRange(2, 5).Draw(t, "r"), rapid.IntRange(3, 6).Draw(t, "c"), rapid.IntRange(0, 7).Draw(t, "opts")}
+	case "fresh-line":
+		d := gen.Mesh(t, gen.MeshOpts{MaxN: 6, MaxPrims: 4, NeedPos: rapid.IntRange(0, 3).Draw(t, "needpos") > 0, DupPos: true,
+			Topos: []modeling.Topology{modeling.LineTopology, modeling.LineStripTopology, modeling.LineLoopTopology, modeling.QuadTopology},
+			Attrs: []gen.AttrSpec{{Name: modeling.PositionAttribute, Arity: 3}, {Name: modeling.NormalAttribute, Arity: 3}, {Name: modeling.TexCoordAttribute, Arity: 2},
+				{Name: "w", Arity: 1}, {Name: modeling.RotationAttribute, Arity: 4}}}, "m")
+		op.M = &d
+	case "tf":
+		op.X = []int{rapid.IntRange(0, TfCount-1).Draw(t, "tf"), rapid.IntRange(0, 2).Draw(t, "attrname")}
+		for j := 0; j < 4; j++ {
+			op.P = append(op.P, float64(rapid.IntRange(-16, 16).Draw(t, "p"))/4)
+		}
 	case "setidx":
 		op.X = rapid.SliceOfN(rapid.IntRange(0, 5), 0, 9).Draw(t, "ix")
 	case "setmats":
@@ -76,7 +109,6 @@ func Gen(t *rapid.T) Op {
 			op.P = append(op.P, float64(rapid.IntRange(-16, 16).Draw(t, "p"))/4)
 		}
 	}
-	return op
 }
 
 func p(op Op, i int) float64 {
@@ -110,6 +142,135 @@ func prim(op Op) modeling.Mesh {
 		return primitives.Circle{Sides: c, Radius: 1}.ToMesh()
 	default:
 		return primitives.UnitCube()
+	}
+}
+
+func prim2(op Op) modeling.Mesh {
+	x := append(append([]int{}, op.X...), 0, 2, 3, 0)
+	r, c, o := x[1], x[2], x[3]
+	if r < 2 {
+		r = 2
+	}
+	if c < 3 {
+		c = 3
+	}
+	circ := &primitives.CircleUVs{Center: vector2.New(0.5, 0.5), Radius: 0.5}
+	strip := &primitives.StripUVs{Start: vector2.New(0., 0.5), End: vector2.New(1., 0.5), Width: 0.5}
+	switch x[0] {
+	case 0:
+		return primitives.Hemisphere{Radius: 1, Capped: o&1 == 1}.UV(r, c)
+	case 1:
+		return primitives.UVSphereUnwelded(1.5, r, c)
+	case 2:
+		return primitives.Cone{Height: 2, Radius: 1, Sides: c}.ToMesh()
+	case 3:
+		return primitives.Circle{Sides: c, Radius: 2, UVs: circ}.ToMesh()
+	case 4:
+		uv := &primitives.CylinderUVs{}
+		if o&1 == 1 {
+			uv.Top = circ
+		}
+		if o&2 == 2 {
+			uv.Bottom = circ
+		}
+		if o&4 == 4 {
+			uv.Side = strip
+		}
+		return primitives.Cylinder{Sides: c, Height: 1, Radius: 1, NoTop: r%2 == 0, NoBottom: r%3 == 0, UVs: uv}.ToMesh()
+	case 5:
+		return primitives.Quad{Width: 1, Depth: 2, UVs: strip}.ToMesh()
+	case 6:
+		return primitives.Cube{Width: 1, Height: 2, Depth: 3, UVs: primitives.DefaultCubeUVs()}.Welded()
+	default:
+		return primitives.Cube{Width: 1, Height: 2, Depth: 3}.UnweldedQuads()
+	}
+}
+
+// Lut is a 256 x 16 colour-grading table (16 cells of 16 x 16) with a non-trivial mapping.
+var Lut = func() image.Image {
+	img := image.NewRGBA(image.Rect(0, 0, 256, 16))
+	for x := 0; x < 256; x++ {
+		for y := 0; y < 16; y++ {
+			img.Set(x, y, color.RGBA{R: uint8(255 - x), G: uint8(y * 17), B: uint8(x / 16 * 17), A: 255})
+		}
+	}
+	return img
+}()
+
+// TfBase names, for transformer k, the catalogue operation with the same precondition.
+var TfBase = []string{"center", "colorgrade", "crop", "custom", "filter1", "filter2", "filter3", "filter4", "flat", "flip", "laplacian",
+	"normalize", "normalize2", "nullfaces", "unref", "rotateattr-pos", "scaleattr", "scalealongnormal", "scale2", "slice", "slice", "smooth", "smoothweld",
+	"translateattr-pos", "unweld"}
+
+// Tf builds transformer k. name 0: the attribute is left blank (documented fall-back), 1: the
+// usual attribute spelled out, 2: blank padded with spaces (also the fall-back).
+func Tf(op Op) modeling.Transformer {
+	x := append(append([]int{}, op.X...), 0, 0)
+	v := vector3.New(p(op, 0), p(op, 1), p(op, 2))
+	q := quaternion.FromTheta(p(op, 3), vector3.New(p(op, 0), p(op, 1), 1.5))
+	nm := func(usual string) string {
+		switch x[1] {
+		case 1:
+			return usual
+		case 2:
+			return "  "
+		}
+		return ""
+	}
+	switch x[0] % TfCount {
+	case 0:
+		return meshops.CenterAttribute3DTransformer{Attribute: nm(modeling.PositionAttribute)}
+	case 1:
+		return meshops.ColorGradingLutTransformer{Attribute: nm(modeling.ColorAttribute), LUT: Lut}
+	case 2:
+		return meshops.CropAttribute3DTransformer{Attribute: nm(modeling.PositionAttribute), BoundingBox: geometry.NewAABB(v, vector3.New(6., 6, 6))}
+	case 3:
+		return meshops.CustomTransformer{Func: func(m modeling.Mesh) (modeling.Mesh, error) { return m.Translate(v), nil }}
+	case 4: // the filters have no fall-back attribute
+		return meshops.FilterFloat1Transformer{Attribute: "w", Filter: func(x float64) bool { return x >= p(op, 0) }}
+	case 5:
+		return meshops.FilterFloat2Transformer{Attribute: modeling.TexCoordAttribute, Filter: func(x vector2.Float64) bool { return x.X() >= p(op, 0) }}
+	case 6:
+		return meshops.FilterFloat3Transformer{Attribute: modeling.PositionAttribute, Filter: func(x vector3.Float64) bool { return x.X() < p(op, 0) }}
+	case 7:
+		return meshops.FilterFloat4Transformer{Attribute: modeling.RotationAttribute, Filter: func(x vector4.Float64) bool { return x.W() >= p(op, 0) }}
+	case 8:
+		return meshops.FlatNormalsTransformer{}
+	case 9:
+		return meshops.FlipTriangleWindingTransformer{}
+	case 10:
+		return meshops.LaplacianSmoothTransformer{Attribute: nm(modeling.PositionAttribute), Iterations: 2, SmoothingFactor: 0.5}
+	case 11:
+		return meshops.NormalizeAttribute3DTransformer{Attribute: nm(modeling.PositionAttribute)}
+	case 12:
+		return meshops.NormalizeAttribute2DTransformer{Attribute: nm(modeling.TexCoordAttribute)}
+	case 13:
+		return meshops.RemoveNullFaces3DTransformer{Attribute: nm(modeling.PositionAttribute), MinArea: 0.1}
+	case 14:
+		return meshops.RemovedUnreferencedVerticesTransformer{}
+	case 15:
+		return meshops.RotateAttribute3DTransformer{Attribute: nm(modeling.PositionAttribute), Amount: q}
+	case 16:
+		return meshops.ScaleAttribute3DTransformer{Attribute: nm(modeling.PositionAttribute), Origin: vector3.New(1., 0, 0), Amount: v}
+	case 17:
+		return meshops.ScaleAttributeAlongNormalTransformer{AttributeToScale: nm(modeling.PositionAttribute), NormalAttribute: nm(modeling.NormalAttribute), Amount: p(op, 0)}
+	case 18:
+		return meshops.ScaleAttribute2DTransformer{Attribute: nm(modeling.TexCoordAttribute), Origin: vector2.New(0.5, 0.5), Amount: vector2.New(p(op, 0), p(op, 1))}
+	case 19, 20:
+		side := meshops.AbovePlane
+		if x[0]%TfCount == 20 {
+			side = meshops.BelowPlane
+		}
+		return meshops.SliceByPlaneTransformer{Attribute: nm(modeling.PositionAttribute), SliceToKeep: side,
+			Plane: geometry.NewPlaneFromPoints(v, v.Add(vector3.Right[float64]()), v.Add(vector3.Forward[float64]()))}
+	case 21:
+		return meshops.SmoothNormalsTransformer{}
+	case 22:
+		return meshops.SmoothNormalsImplicitWeldTransformer{Distance: 0.01}
+	case 23:
+		return meshops.TranslateAttribute3DTransformer{Attribute: nm(modeling.PositionAttribute), Amount: v}
+	default:
+		return meshops.UnweldTransformer{}
 	}
 }
 
@@ -266,6 +427,79 @@ func Apply(op Op, a, b modeling.Mesh) []modeling.Mesh {
 		return []modeling.Mesh{x, y}
 	case "vertexcolor":
 		return one(meshops.VertexColorSpace(a, modeling.ColorAttribute, meshops.VertexColorSpaceSRGBToLinear))
+	case "fresh-line":
+		return one(op.M.Build())
+	case "prim2":
+		return one(prim2(op))
+	case "copy2":
+		return one(a.CopyFloat2Attribute(b, modeling.TexCoordAttribute))
+	case "copy4":
+		return one(a.CopyFloat4Attribute(b, modeling.RotationAttribute))
+	case "clearattr":
+		return one(a.ClearAttributeData())
+	case "filter2":
+		return one(meshops.FilterFloat2(a, modeling.TexCoordAttribute, func(x vector2.Float64) bool { return x.X() >= p(op, 0) }))
+	case "filter4":
+		return one(meshops.FilterFloat4(a, modeling.RotationAttribute, func(x vector4.Float64) bool { return x.W() >= p(op, 0) }))
+	case "normalize2":
+		return one(meshops.NormalizeAttribute2D(a, modeling.TexCoordAttribute))
+	case "scale2":
+		return one(meshops.ScaleAttribute2D(a, modeling.TexCoordAttribute, vector2.New(0.5, 0.5), vector2.New(p(op, 0), p(op, 1))))
+	case "colorgrade":
+		return one(meshops.ColorGradingLut(a, Lut, modeling.ColorAttribute))
+	case "tf":
+		r, err := Tf(op).Transform(a)
+		if err != nil {
+			return nil
+		}
+		return one(r)
+	case "modifydefault": // the variants that size their worker pool themselves
+		r := a
+		if r.HasFloat3Attribute(modeling.PositionAttribute) {
+			r = r.ModifyFloat3AttributeParallel(modeling.PositionAttribute, func(i int, x vector3.Float64) vector3.Float64 { return x.Add(v) })
+		}
+		if r.HasFloat2Attribute(modeling.TexCoordAttribute) {
+			r = r.ModifyFloat2AttributeParallel(modeling.TexCoordAttribute, func(i int, x vector2.Float64) vector2.Float64 { return x.Scale(2) })
+		}
+		if r.HasFloat1Attribute("w") {
+			r = r.ModifyFloat1AttributeParallel("w", func(i int, x float64) float64 { return x + p(op, 0) })
+		}
+		return one(r)
+	case "scan2":
+		for _, name := range a.Float1Attributes() {
+			a.ScanFloat1Attribute(name, func(i int, v float64) {})
+			a.ScanFloat1AttributeParallel(name, func(i int, v float64) {})
+			a.ScanFloat1AttributeParallelWithPoolSize(name, 3, func(i int, v float64) {})
+		}
+		for _, name := range a.Float2Attributes() {
+			a.ScanFloat2Attribute(name, func(i int, v vector2.Float64) {})
+			a.ScanFloat2AttributeParallel(name, func(i int, v vector2.Float64) {})
+			a.ScanFloat2AttributeParallelWithPoolSize(name, 2, func(i int, v vector2.Float64) {})
+		}
+		for _, name := range a.Float3Attributes() {
+			a.ScanFloat3AttributeParallel(name, func(i int, v vector3.Float64) {})
+			a.ScanFloat3AttributeParallelWithPoolSize(name, 5, func(i int, v vector3.Float64) {})
+		}
+		for _, name := range a.Float4Attributes() {
+			a.ScanFloat4Attribute(name, func(i int, v vector4.Float64) {})
+		}
+		a.ScanPrimitivesParallel(func(i int, p modeling.Primitive) {})
+		a.ScanPrimitivesParallelWithPoolSize(3, func(i int, p modeling.Primitive) {})
+		if a.HasFloat3Attribute(modeling.PositionAttribute) {
+			a.OctTreeDepth(2)
+			a.OctTreeWithAttributeAndDepth(modeling.PositionAttribute, 1)
+		}
+		a.HasVertexAttribute("w")
+		if a.Topology() == modeling.LineStripTopology {
+			for i := 0; i < a.PrimitiveCount(); i++ {
+				a.LineStrip(i)
+			}
+		}
+	case "export-gltf-mat":
+		mat := GltfMaterial(op.B)
+		sc := gltf.PolyformScene{Models: []gltf.PolyformModel{{Name: "x", Mesh: &a, Material: mat}, {Name: "y", Mesh: &b, Material: mat}, {Name: "z", Mesh: &a, Material: GltfMaterial(op.B + 1)}}}
+		gltf.WriteBinary(sc, io.Discard)
+		gltf.WriteText(sc, io.Discard)
 	case "export-ply":
 		ply.Write(io.Discard, a, ply.ASCII)
 		ply.Write(io.Discard, a, ply.BinaryLittleEndian)
@@ -359,10 +593,50 @@ func Pre(op Op, a, b modeling.Mesh) (ok, checked bool) {
 		return len(a.Materials()) < 2 || total == a.PrimitiveCount(), false
 	case "slice":
 		return tri && hasPos, false
-	case "vertexcolor":
+	case "vertexcolor", "colorgrade":
 		return a.HasFloat3Attribute(modeling.ColorAttribute), true
+	case "fresh-line", "prim2":
+		return true, true
+	case "copy2":
+		return b.HasFloat2Attribute(modeling.TexCoordAttribute) && copyFits(a, b), false
+	case "copy4":
+		return b.HasFloat4Attribute(modeling.RotationAttribute) && copyFits(a, b), false
+	case "clearattr": // a builder step: the indices stay while the vertices go - not an operation that returns a finished mesh
+		return false, false
+	case "filter2":
+		return pt && a.HasFloat2Attribute(modeling.TexCoordAttribute), false
+	case "filter4":
+		return pt && a.HasFloat4Attribute(modeling.RotationAttribute), false
+	case "normalize2", "scale2":
+		return a.HasFloat2Attribute(modeling.TexCoordAttribute), true
+	case "modifydefault":
+		return true, true
+	case "rotateattr-pos", "translateattr-pos":
+		return hasPos, true
+	case "custom":
+		return hasPos, true
+	case "tf":
+		x := append(append([]int{}, op.X...), 0)
+		return Pre(Op{K: TfBase[x[0]%TfCount]}, a, b)
 	}
 	return false, false
+}
+
+// GltfMaterial builds a glTF material (colours, a texture with a sampler, an extension) - fresh
+// pointers on every call, so that a writer that edits what it is handed shows in the mesh snapshots
+// only through the meshes, never through a shared pool.
+func GltfMaterial(k int) *gltf.PolyformMaterial {
+	if k%4 == 0 {
+		return nil
+	}
+	rough, metal := 0.25*float64(k%5), 0.5
+	m := &gltf.PolyformMaterial{Name: []string{"plain", "with space", "tex"}[k%3],
+		PbrMetallicRoughness: &gltf.PolyformPbrMetallicRoughness{BaseColorFactor: color.RGBA{R: uint8(40 * k), G: 128, B: 255, A: 255}, RoughnessFactor: &rough, MetallicFactor: &metal}}
+	if k%2 == 1 {
+		m.PbrMetallicRoughness.BaseColorTexture = &gltf.PolyformTexture{URI: "tex\\a b.png", Sampler: &gltf.Sampler{WrapS: gltf.SamplerWrap_REPEAT}}
+		m.NormalTexture = &gltf.PolyformNormal{PolyformTexture: &gltf.PolyformTexture{URI: "n.png"}}
+	}
+	return m
 }
 
 // copyFits: copying an attribute array of b into a keeps a well-formed only when the lengths
